@@ -83,7 +83,7 @@ class Verdict:
             return 1
         if self.inconclusive:
             for x in self.inconclusive[:10]:
-                print('INCONCLUSIVE: %s' % x[:500])
+                print('INCONCLUSIVE: %s' % x[-3000:])
             return 2
         print('held: property=%s tier=%s seed=%d evaluations=%d distinct_nontrivial=%d wall=%.1fs' % (
             self.prop, self.tier, self.seed, cov['evaluations'], cov['distinct_nontrivial'], time.time() - self.t0))
